@@ -1,6 +1,6 @@
 """C06: named semaphore — multi-process histories against a reference model, blocking probes, k-exclusion stress,
 crash-point enumeration (wrapper level; thorough: strace system-call level) with the documented recovery."""
-import os, random, time, tempfile, shutil, subprocess, concurrent.futures as cf
+import collections, os, random, time, tempfile, shutil, subprocess, concurrent.futures as cf
 
 from .. import build, core, agents
 
@@ -44,7 +44,8 @@ def run_history(ctx, exe, rng, idx):
         for ag in ags:
             ag.cmd("inject 30")        # half of the histories: 30% of sem_wait/sem_open/shm_open calls return EINTR first
     base = "vfC06-%d-%d-%d" % (os.getpid(), ctx.seed, idx)
-    names = [base + "-" + c for c in "abc"[:rng.choice([1, 2, 3])]]
+    names, shape = agents.name_family(rng, base, rng.choice([1, 2, 3]))
+    ctx.coverage.setdefault("name_shapes", collections.Counter())[shape] += 1
     m = Model()
     for n in names:
         m.names[n] = None
